@@ -1,6 +1,7 @@
 CONSTANTS
  Guarded = FALSE
  MaxDepth = 0
+ PlansOnly = FALSE
 SPECIFICATION Spec
 INVARIANT NoCrash
 INVARIANT Total
